@@ -33,6 +33,12 @@ var table = map[string]propInfo{
 		rule: "outer: (S, K) drawn by rapid and compiled;" + innerRule + " C05: a conforming object (any node null / unknown / known, decoded by the framework from a generated tftypes.Value) and its payload twin (same object, every null/unknown node additionally carries a payload) are copied into a zero struct and into a populated struct; the four results must agree, null/unknown attributes must leave zero fields, excluded fields must stay untouched. " +
 			"Non-trivial: the object has a null/unknown node below the root. Distinct by hash of (object, prior target).",
 	},
+	"C06": {
+		quick:    budget{checks: 32, shards: 16, inner: 400},
+		thorough: budget{checks: 300, shards: 16, inner: 3000},
+		rule: "outer: (S, K) drawn by rapid and compiled;" + innerRule + " C06: a conforming object is corrupted at any depth (attributes deleted, values replaced by another framework type / a foreign attr.Value / a nil interface, nil Attrs / Elems, wrong-typed list and map elements) and read by CopyFrom; the multiset of error diagnostics is compared with the one computed from the corruption script and the struct with the one read from the object in which the corrupted nodes are null. For CopyTo, subsets of attribute types are removed at every object level (top, nested, list/map element types) and the diagnostics and the remaining attributes are compared with the untouched run. " +
+			"Non-trivial: a corruption below the top level or >= 2 corruptions. Distinct by hash of (corrupted object, removed types, source).",
+	},
 	"C07": {
 		quick:    budget{checks: 32, shards: 16, inner: 300},
 		thorough: budget{checks: 300, shards: 16, inner: 2000},
